@@ -258,7 +258,10 @@ int bufr_create_datasubset( BUFR_Dataset *dts )
       {
       if (bufr_expand_sequence( bsq, OP_EXPAND_DELAY_REPL | OP_ZDRC_SKIP, 
                tmplt->tables ) < 0)
+         {
+         bufr_free_sequence( bsq );
          return -1;
+         }
       }
 /*
  * applying Table C
@@ -426,6 +429,11 @@ int bufr_expand_datasubset( BUFR_Dataset *dts, int dss_pos )
    if (bufr_expand_sequence( bsq, OP_EXPAND_DELAY_REPL | OP_ZDRC_SKIP, 
             dts->tmplte->tables ) < 0 )
       {
+/*
+ * the descriptors were handed over to the sequence and have been freed with it:
+ * the subset must not keep pointers to them
+ */
+      arr_del( dss->data, arr_count( dss->data ) );
       bufr_free_sequence( bsq );
       return -1;
       }
